@@ -11,6 +11,7 @@ import Midgard.Proofs.FixedCol
 import Midgard.Proofs.Decimal
 import Midgard.Proofs.RinexNavFile
 import Midgard.Proofs.RinexNavDispatch
+import Midgard.Proofs.RinexNavNoCR
 
 namespace Midgard.Props.C12
 open Midgard.RinexNav Midgard.Generated.RinexNav Midgard.FixedCol Midgard.Text Midgard.Decimal
@@ -423,7 +424,9 @@ theorem head_clock_names (v2 : Option Str) (vs : List (String × Str)) (e : Epoc
     simp only [headOf, head2] at h
     split at h
     · simp at h
-    · exact key _ h
+    · split at h
+      · simp at h
+      · exact key _ h
 
 /-- **all columns have equal length**: a supported record with its seven orbit lines adds exactly one
 value to each of the record's 38 columns and none to any other; a skipped record (GLONASS, SBAS) adds
@@ -862,6 +865,502 @@ end Dispatch
 
 end Midgard.Props.C12
 
+namespace Midgard.Props.C12
+open Midgard.Text Midgard.RinexNav Midgard.Generated.RinexNav Midgard.Spec.RinexNavFile
+
+/-! ## 8. The post-processing, record by record -/
+
+theorem col_none_of_not_any (d : Cols) (k : String) (h : d.any (fun x => decide (x.1 = k)) = false) : col d k = Option.none := by
+  induction d with
+  | nil => rfl
+  | cons p rest ih =>
+    obtain ⟨k0, vs0⟩ := p
+    simp only [List.any_cons, Bool.or_eq_false_iff, decide_eq_false_iff_not] at h
+    simp only [col, h.1, if_false]
+    exact ih h.2
+
+theorem col_map_set (k : String) (vs : List Cell) (k' : String) : ∀ (d : Cols),
+    col (d.map fun (x : String × List Cell) => if x.1 = k then (x.1, vs) else (x.1, x.2)) k' =
+      if k' = k then (if d.any (fun x => decide (x.1 = k)) then some vs else Option.none) else col d k' := by
+  intro d
+  induction d with
+  | nil => by_cases h : k' = k <;> simp [col, h]
+  | cons p rest ih =>
+    obtain ⟨k0, vs0⟩ := p
+    by_cases h0 : k0 = k'
+    · subst h0
+      by_cases hk : k0 = k
+      · subst hk; simp [col]
+      · simp [col, hk]
+    · by_cases hk : k' = k
+      · subst hk
+        have h0' : ¬ k0 = k' := h0
+        simp only [List.map_cons, h0', if_false, col, List.any_cons, decide_false, Bool.false_or, if_true]
+        have := ih
+        simp only [if_true] at this
+        exact this
+      · by_cases hkk : k0 = k
+        · subst hkk
+          simp only [List.map_cons, if_true, col, h0, if_false, hk]
+          have := ih
+          simp only [hk, if_false] at this
+          exact this
+        · simp only [List.map_cons, hkk, if_false, col, h0, hk]
+          have := ih
+          simp only [hk, if_false] at this
+          exact this
+
+theorem col_append_one (d : Cols) (k : String) (vs : List Cell) (k' : String) :
+    col (d ++ [(k, vs)]) k' = match col d k' with
+      | some x => some x
+      | Option.none => if k' = k then some vs else Option.none := by
+  induction d with
+  | nil => by_cases h : k = k' <;> simp [col, h, eq_comm]
+  | cons p rest ih =>
+    obtain ⟨k0, vs0⟩ := p
+    by_cases h0 : k0 = k'
+    · simp [col, h0]
+    · simp only [List.cons_append, col, h0, if_false]
+      exact ih
+
+theorem col_setCol (d : Cols) (k : String) (vs : List Cell) (k' : String) :
+    col (setCol d k vs) k' = if k' = k then some vs else col d k' := by
+  unfold setCol
+  by_cases hany : d.any (fun x => decide (x.1 = k)) = true
+  · simp only [hany, if_true]
+    have := col_map_set k vs k' d
+    simp only [hany, if_true] at this
+    exact this
+  · have hany' : d.any (fun x => decide (x.1 = k)) = false := Bool.eq_false_iff.mpr hany
+    simp only [hany', Bool.false_eq_true, if_false]
+    rw [col_append_one]
+    by_cases hk : k' = k
+    · subst hk
+      rw [col_none_of_not_any d k' hany']
+    · simp only [hk, if_false]
+      cases col d k' <;> rfl
+
+theorem col_delCol (d : Cols) (k k' : String) : col (delCol d k) k' = if k' = k then Option.none else col d k' := by
+  unfold delCol
+  induction d with
+  | nil => by_cases h : k' = k <;> simp [col, h]
+  | cons p rest ih =>
+    obtain ⟨k0, vs0⟩ := p
+    by_cases h0 : k0 = k
+    · subst h0
+      simp only [List.filter_cons, ne_eq, not_true_eq_false, decide_false, Bool.false_eq_true, if_false]
+      rw [ih]
+      by_cases hk : k' = k0
+      · simp [hk]
+      · have : ¬ k0 = k' := fun e => hk e.symm
+        simp [hk, col, this]
+    · simp only [List.filter_cons, ne_eq, h0, not_false_eq_true, decide_true, if_true, col]
+      by_cases h1 : k0 = k'
+      · subst h1
+        have : ¬ k0 = k := h0
+        simp [this]
+      · simp only [h1, if_false]
+        exact ih
+
+/-! ### `rename3`, one general field at a time -/
+
+/-- the values of the specific column `n`: the record's value for the systems that use the name `n`, `None` elsewhere -/
+def maskCol (per : List (String × String)) (n : String) (sys vals : List Cell) : List Cell :=
+  (sys.zip vals).map fun (s, v) => if ((per.filter (·.2 = n)).map (·.1)).contains (asString (cellStr s)) then v else .none
+
+/-- the specific names of a general field, in order of first appearance -/
+def newNames (per : List (String × String)) : List String :=
+  per.foldl (fun acc (_, n) => if acc.contains n then acc else acc ++ [n]) []
+
+/-- one round of `_rename_fields_based_on_system` -/
+def renStep (d : Cols) (field : String) (per : List (String × String)) : Option Cols :=
+  (col d "system").bind fun sys => (col d field).bind fun vals =>
+    some (delCol ((newNames per).foldl (fun d n => setCol d n (maskCol per n sys vals)) d) field)
+
+theorem rename3_cons (field : String) (per : List (String × String)) (rest : SysNames) (d : Cols) :
+    rename3 ((field, per) :: rest) d = (renStep d field per).bind (rename3 rest) := by
+  rfl
+
+theorem rename3_nil (d : Cols) : rename3 [] d = some d := rfl
+
+theorem mem_newNames (per : List (String × String)) (n : String) : n ∈ newNames per ↔ n ∈ per.map (·.2) := by
+  unfold newNames
+  have key : ∀ (per : List (String × String)) (acc : List String),
+      n ∈ per.foldl (fun acc (x : String × String) => if acc.contains x.2 then acc else acc ++ [x.2]) acc ↔
+        n ∈ acc ∨ n ∈ per.map (·.2) := by
+    intro per
+    induction per with
+    | nil => intro acc; simp
+    | cons x per ih =>
+      intro acc
+      simp only [List.foldl_cons, List.map_cons, List.mem_cons]
+      rw [ih]
+      by_cases hc : acc.contains x.2 = true
+      · simp only [hc, if_true]
+        have : x.2 ∈ acc := List.contains_iff_mem.mp hc
+        constructor
+        · rintro (h | h)
+          · exact Or.inl h
+          · exact Or.inr (Or.inr h)
+        · rintro (h | h | h)
+          · exact Or.inl h
+          · exact Or.inl (h ▸ this)
+          · exact Or.inr h
+      · simp only [hc, Bool.false_eq_true, if_false, List.mem_append, List.mem_singleton]
+        constructor
+        · rintro ((h | h) | h)
+          · exact Or.inl h
+          · exact Or.inr (Or.inl h)
+          · exact Or.inr (Or.inr h)
+        · rintro (h | h | h)
+          · exact Or.inl (Or.inl h)
+          · exact Or.inl (Or.inr h)
+          · exact Or.inr h
+  have := key per []
+  simpa using this
+
+theorem col_foldl_setCol (g : String → List Cell) (ns : List String) : ∀ (d : Cols) (k : String),
+    col (ns.foldl (fun d n => setCol d n (g n)) d) k = if k ∈ ns then some (g k) else col d k := by
+  induction ns with
+  | nil => intro d k; simp
+  | cons n ns ih =>
+    intro d k
+    simp only [List.foldl_cons, ih, col_setCol, List.mem_cons]
+    by_cases h1 : k ∈ ns
+    · simp [h1]
+    · by_cases h2 : k = n
+      · subst h2; simp [h1]
+      · simp [h1, h2]
+
+/-- columns whose rows are functions of the records `rs`, one row per record -/
+def Rows (rs : List NavRec) (d : Cols) (sem : String → Option (NavRec → Cell)) : Prop :=
+  ∀ k, col d k = (sem k).map fun f => rs.map f
+
+theorem maskCol_map (per : List (String × String)) (n : String) (rs : List NavRec) (sf vf : NavRec → Cell) :
+    maskCol per n (rs.map sf) (rs.map vf) =
+      rs.map fun r => if ((per.filter (·.2 = n)).map (·.1)).contains (asString (cellStr (sf r))) then vf r else .none := by
+  unfold maskCol
+  rw [List.zip_map', List.map_map]
+  rfl
+
+/-- the per-record meaning of one round of renaming -/
+def semStep (sem : String → Option (NavRec → Cell)) (field : String) (per : List (String × String)) :
+    String → Option (NavRec → Cell) := fun k =>
+  if k = field then Option.none
+  else if k ∈ per.map (·.2) then
+    match sem "system", sem field with
+    | some sf, some vf => some fun r =>
+        if ((per.filter (·.2 = k)).map (·.1)).contains (asString (cellStr (sf r))) then vf r else .none
+    | _, _ => Option.none
+  else sem k
+
+theorem renStep_rows (rs : List NavRec) (d : Cols) (sem : String → Option (NavRec → Cell)) (field : String)
+    (per : List (String × String)) (h : Rows rs d sem) (hs : (sem "system").isSome = true) (hf : (sem field).isSome = true) :
+    ∃ d', renStep d field per = some d' ∧ Rows rs d' (semStep sem field per) := by
+  obtain ⟨sf, hsf⟩ := Option.isSome_iff_exists.mp hs
+  obtain ⟨vf, hvf⟩ := Option.isSome_iff_exists.mp hf
+  have c1 : col d "system" = some (rs.map sf) := by rw [h "system", hsf]; rfl
+  have c2 : col d field = some (rs.map vf) := by rw [h field, hvf]; rfl
+  have hr : renStep d field per = some (delCol ((newNames per).foldl
+      (fun d n => setCol d n (maskCol per n (rs.map sf) (rs.map vf))) d) field) := by
+    simp only [renStep, c1, c2, Option.bind_some]
+  refine ⟨_, hr, ?_⟩
+  intro k
+  rw [col_delCol, col_foldl_setCol (fun n => maskCol per n (rs.map sf) (rs.map vf))]
+  unfold semStep
+  by_cases hk : k = field
+  · simp [hk]
+  · simp only [hk, if_false]
+    by_cases hm : k ∈ per.map (·.2)
+    · rw [if_pos ((mem_newNames per k).mpr hm), if_pos hm]
+      simp only [hsf, hvf, Option.map_some, maskCol_map]
+    · rw [if_neg (fun hc => hm ((mem_newNames per k).mp hc)), if_neg hm]
+      exact h k
+
+/-- the per-record meaning of `rename3` -/
+def semRename (sem : String → Option (NavRec → Cell)) : SysNames → (String → Option (NavRec → Cell))
+  | [] => sem
+  | (f, p) :: rest => semRename (semStep sem f p) rest
+
+/-- the columns every round reads are there -/
+def okRen (sem : String → Option (NavRec → Cell)) : SysNames → Bool
+  | [] => true
+  | (f, p) :: rest => (sem "system").isSome && (sem f).isSome && okRen (semStep sem f p) rest
+
+theorem rename3_rows (rs : List NavRec) : ∀ (names : SysNames) (d : Cols) (sem : String → Option (NavRec → Cell)),
+    Rows rs d sem → okRen sem names = true → ∃ d', rename3 names d = some d' ∧ Rows rs d' (semRename sem names) := by
+  intro names
+  induction names with
+  | nil => intro d sem h _; exact ⟨d, rfl, h⟩
+  | cons fp rest ih =>
+    obtain ⟨f, p⟩ := fp
+    intro d sem h hok
+    simp only [okRen, Bool.and_eq_true] at hok
+    obtain ⟨d1, hd1, hr1⟩ := renStep_rows rs d sem f p h hok.1.1 hok.1.2
+    obtain ⟨d2, hd2, hr2⟩ := ih d1 (semStep sem f p) hr1 hok.2
+    exact ⟨d2, by rw [rename3_cons, hd1]; exact hd2, hr2⟩
+
+/-! ### `_time_system_correction`, record by record -/
+
+theorem mapM_eq_some_map {α β : Type} (f : α → Option β) (g : α → β) : ∀ (l : List α),
+    (∀ x ∈ l, f x = some (g x)) → l.mapM f = some (l.map g) := by
+  intro l
+  induction l with
+  | nil => intro _; rfl
+  | cons a l ih =>
+    intro h
+    simp only [List.mapM_cons, h a (by simp), ih (fun x hx => h x (by simp [hx])), Option.bind_eq_bind, Option.bind_some,
+      Option.pure_def, List.map_cons]
+
+/-- the per-record meaning of the time correction: four columns are replaced, every other one is kept -/
+def semTime (T : Tables) (fileSys : String) (sem : String → Option (NavRec → Cell)) (sf : NavRec → Cell)
+    (toeQ ttxQ wkQ : NavRec → Rat) : String → Option (NavRec → Cell) :=
+  let mixed : Bool := decide (fileSys = "M" ∨ fileSys = "C")
+  let offS : NavRec → Int := fun r => if mixed then lookupI T.secOffset (asString (cellStr (sf r))) else 0
+  let offW : NavRec → Int := fun r => if mixed then lookupI T.weekOffset (asString (cellStr (sf r))) else 0
+  let toc : NavRec → Rat := fun r => epochSeconds mixed (epochOf r) + offS r
+  let inst : (NavRec → Rat) → NavRec → Cell := fun q r => Cell.time (towards (toc r) ((wkQ r + offW r) * week + (q r + offS r)))
+  fun k =>
+    if k = "transmission_time" then some (inst ttxQ)
+    else if k = "toe" then some (inst toeQ)
+    else if k = "gnss_week" then some fun r => Cell.num (wkQ r + offW r)
+    else if k = "time" then some fun r => Cell.time (toc r)
+    else sem k
+
+theorem zip_rows {β γ : Type} (rs : List NavRec) (f : NavRec → β) (g : NavRec → γ) :
+    (rs.map f).zip (rs.map g) = rs.map fun r => (f r, g r) := List.zip_map'
+
+theorem timeCorrection_rows (T : Tables) (fileSys : String) (rs : List NavRec) (d : Cols)
+    (sem : String → Option (NavRec → Cell)) (sf : NavRec → Cell) (toeQ ttxQ wkQ : NavRec → Rat)
+    (h : Rows rs d sem) (hfs : ["C", "E", "G", "I", "J", "M"].contains fileSys = true)
+    (hsys : sem "system" = some sf) (htoe : sem "toe" = some fun r => Cell.num (toeQ r))
+    (httx : sem "transmission_time" = some fun r => Cell.num (ttxQ r))
+    (hwk : sem "gnss_week" = some fun r => Cell.num (wkQ r)) :
+    ∃ d', timeCorrection T fileSys (rs.map epochOf) d = some d' ∧
+      Rows rs d' (semTime T fileSys sem sf toeQ ttxQ wkQ) := by
+  have c1 : col d "system" = some (rs.map sf) := by rw [h "system", hsys]; rfl
+  have c2 : col d "toe" = some (rs.map fun r => Cell.num (toeQ r)) := by rw [h "toe", htoe]; rfl
+  have c3 : col d "transmission_time" = some (rs.map fun r => Cell.num (ttxQ r)) := by rw [h "transmission_time", httx]; rfl
+  have c4 : col d "gnss_week" = some (rs.map fun r => Cell.num (wkQ r)) := by rw [h "gnss_week", hwk]; rfl
+  unfold timeCorrection
+  simp only [hfs, Bool.not_true, Bool.false_eq_true, if_false, c1, c2, c3, c4, Option.bind_eq_bind, Option.bind_some,
+    Option.pure_def, List.length_map, and_self, decide_true, zip_rows]
+  have hm : ∀ (off : Cell → Int) (q : NavRec → Rat),
+      List.mapM (fun (x : Cell × Cell) => Option.map (fun y => y + ((off x.fst : Int) : Rat)) (cellNum x.snd))
+        (rs.map fun r => (sf r, Cell.num (q r))) = some (rs.map fun r => q r + ((off (sf r) : Int) : Rat)) := by
+    intro off q
+    rw [mapM_eq_some_map _ (fun x => (cellNum x.2).getD 0 + ((off x.1 : Int) : Rat))]
+    · simp [List.map_map, cellNum, Function.comp_def]
+    · intro x hx
+      simp only [List.mem_map] at hx
+      obtain ⟨r, _, rfl⟩ := hx
+      simp [cellNum]
+  have hToe := hm (fun s => if fileSys = "M" ∨ fileSys = "C" then lookupI T.secOffset (asString (cellStr s)) else 0) toeQ
+  have hTtx := hm (fun s => if fileSys = "M" ∨ fileSys = "C" then lookupI T.secOffset (asString (cellStr s)) else 0) ttxQ
+  have hWk := hm (fun s => if fileSys = "M" ∨ fileSys = "C" then lookupI T.weekOffset (asString (cellStr s)) else 0) wkQ
+  simp only [hToe, hTtx, hWk, Option.bind_some]
+  refine ⟨_, rfl, ?_⟩
+  intro k
+  simp only [col_setCol, zip_rows, List.map_map, Function.comp_def]
+  unfold semTime
+  by_cases k1 : k = "transmission_time"
+  · simp [k1]
+  · by_cases k2 : k = "toe"
+    · simp [k2]
+    · by_cases k3 : k = "gnss_week"
+      · simp [k3]
+      · by_cases k4 : k = "time"
+        · simp [k4]
+        · simp only [k1, k2, k3, k4, if_false]
+          exact h k
+
+/-! ### the columns after reading, as rows -/
+
+/-- the value record `r` prints for column `k` (`None` for a name no record feeds) -/
+def valD (r : NavRec) (k : String) : Cell := (valOf r k).getD .none
+
+/-- the columns after reading: column `k` holds `valD r k` for every supported record `r` -/
+def sem0 : String → Option (NavRec → Cell) := fun k => if k ∈ recordNames v3 then some (fun r => valD r k) else Option.none
+
+theorem valOf_isSome (r : NavRec) (k : String) (hk : k ∈ recordNames v3) : ∃ v, valOf r k = some v := by
+  have hmem : k ∈ (kvOf r).map (·.1) := by rw [kvOf_keys]; exact hk
+  simp only [List.mem_map] at hmem
+  obtain ⟨x, hx, rfl⟩ := hmem
+  unfold valOf
+  cases hf : (kvOf r).find? (fun y => decide (y.1 = x.1)) with
+  | none =>
+    rw [List.find?_eq_none] at hf
+    exact absurd (decide_eq_true (rfl : x.1 = x.1)) (hf x hx)
+  | some y => exact ⟨y.2, rfl⟩
+
+theorem valOf_none (r : NavRec) (k : String) (hk : ¬ k ∈ recordNames v3) : (kvOf r).find? (fun y => decide (y.1 = k)) = Option.none := by
+  rw [List.find?_eq_none]
+  intro y hy
+  simp only [decide_eq_true_eq]
+  intro e
+  apply hk
+  rw [← kvOf_keys r, ← e]
+  exact List.mem_map_of_mem hy
+
+theorem rows_expected (items : List Item) (hne : supported items ≠ []) :
+    Rows (supported items) (expectedData items) sem0 := by
+  intro k
+  unfold sem0
+  by_cases hk : k ∈ recordNames v3
+  · rw [expectedData_col items k hk]
+    simp only [hne, if_false, hk, if_true, Option.map_some]
+    congr 1
+    induction supported items with
+    | nil => rfl
+    | cons r rs ih =>
+      obtain ⟨v, hv⟩ := valOf_isSome r k hk
+      simp [hv, valD, ih]
+  · simp only [hk, if_false, Option.map_none]
+    unfold expectedData
+    have key : ∀ (rs : List NavRec) (d : Cols), col d k = Option.none →
+        col (rs.foldl (fun d r => pushRow d (kvOf r)) d) k = Option.none := by
+      intro rs
+      induction rs with
+      | nil => intro d h; exact h
+      | cons r rs ih =>
+        intro d h
+        apply ih
+        have hnd : nodupL ((kvOf r).map (·.1)) = true := by rw [kvOf_keys]; exact record_names_distinct.1
+        rw [col_pushRow (kvOf r) hnd k d, valOf_none r k hk]
+        exact h
+    exact key _ [] rfl
+
+/-! ### `_determine_message_type` and the whole post-processing -/
+
+/-- the LNAV test of one record: a GPS / QZSS record must carry an integral IODE -/
+def lnavRow (sf iodeF : NavRec → Cell) (r : NavRec) : Bool :=
+  !(cellStr (sf r) = ['G'] || cellStr (sf r) = ['J']) || ((cellNum (iodeF r)).map isIntegral).getD true
+
+theorem lnavOk_rows (rs : List NavRec) (d : Cols) (sem : String → Option (NavRec → Cell)) (sf iodeF : NavRec → Cell)
+    (h : Rows rs d sem) (hs : sem "system" = some sf) (hi : sem "iode" = some iodeF) :
+    lnavOk d = rs.all (lnavRow sf iodeF) := by
+  have c1 : col d "system" = some (rs.map sf) := by rw [h "system", hs]; rfl
+  have c2 : col d "iode" = some (rs.map iodeF) := by rw [h "iode", hi]; rfl
+  unfold lnavOk
+  simp only [c1, c2, zip_rows, List.all_map]
+  rfl
+
+/-- the per-record meaning of the whole RINEX 3 post-processing for a file of satellite system `fileSys` -/
+def postSem (fileSys : String) : String → Option (NavRec → Cell) :=
+  semTime v3 fileSys (semRename sem0 v3.sysnames) (fun r => Cell.str [r.sys])
+    (fun r => r.o3.a.val) (fun r => r.o7.a.val) (fun r => r.o5.c.val)
+
+theorem okRen_v3 : okRen sem0 v3.sysnames = true := by decide +kernel
+
+theorem sem_system : semRename sem0 v3.sysnames "system" = some (fun r => Cell.str [r.sys]) := by rfl
+theorem sem_toe : semRename sem0 v3.sysnames "toe" = some (fun r => Cell.num r.o3.a.val) := by rfl
+theorem sem_ttx : semRename sem0 v3.sysnames "transmission_time" = some (fun r => Cell.num r.o7.a.val) := by rfl
+theorem sem_week : semRename sem0 v3.sysnames "gnss_week" = some (fun r => Cell.num r.o5.c.val) := by rfl
+theorem sem_iode (fs : String) : postSem fs "iode" = some (fun r => Cell.num r.o1.a.val) := by rfl
+
+theorem sem_system_post (fs : String) : postSem fs "system" = some (fun r => Cell.str [r.sys]) := by rfl
+
+/-- **post_record**: for every RINEX 3 file content (any supported records, at least one) and every admissible
+satellite-system letter of the header, the post-processing (`_rename_fields_based_on_system`,
+`_time_system_correction`, `_determine_message_type`) returns columns whose row `i` is a function of record `i`
+alone: column `k` is `rs.map (f k)` with `f = postSem fileSys` — or it refuses the file, exactly when some GPS / QZSS
+record has a non-integral IODE. -/
+theorem post_record (items : List Item) (fileSys : Str) (hne : supported items ≠ [])
+    (hfs : ["C", "E", "G", "I", "J", "M"].contains (asString fileSys) = true) :
+    ∃ d, Rows (supported items) d (postSem (asString fileSys)) ∧
+      postV3 v3 fileSys (expectedState items) =
+        if (supported items).all (lnavRow (fun r => Cell.str [r.sys]) (fun r => Cell.num r.o1.a.val)) then some d
+        else Option.none := by
+  have h0 := rows_expected items hne
+  obtain ⟨d1, hd1, hr1⟩ := rename3_rows (supported items) v3.sysnames (expectedData items) sem0 h0 okRen_v3
+  obtain ⟨d2, hd2, hr2⟩ := timeCorrection_rows v3 (asString fileSys) (supported items) d1 (semRename sem0 v3.sysnames)
+    (fun r => Cell.str [r.sys]) (fun r => r.o3.a.val) (fun r => r.o7.a.val) (fun r => r.o5.c.val) hr1 hfs
+    sem_system sem_toe sem_ttx sem_week
+  refine ⟨d2, hr2, ?_⟩
+  have hdata : (expectedData items).isEmpty = false := by
+    have := h0 "system"
+    cases hd : expectedData items with
+    | nil => rw [hd] at this; simp [col, sem0, recordNames] at this
+    | cons _ _ => rfl
+  have hl := lnavOk_rows (supported items) d2 (postSem (asString fileSys)) _ _ hr2 (sem_system_post _) (sem_iode _)
+  unfold postV3
+  simp only [expectedState, hdata, Bool.false_eq_true, if_false, hd1, hd2, hl, Option.bind_eq_bind, Option.bind_some,
+    Option.pure_def]
+
+/-- **the BeiDou corrections are applied to exactly the BeiDou records**: in the rows of `post_record`, the record
+epoch is the printed civil epoch plus 14 s and the week is the printed week plus 1356 for a record of system `C` in a
+mixed or BeiDou file, and exactly the printed values for every other record (and in every single-system file of
+another system) -/
+theorem post_record_beidou (fs : String) :
+    postSem fs "time" = some (fun r => Cell.time (epochSeconds (decide (fs = "M" ∨ fs = "C")) (epochOf r) +
+      (((if decide (fs = "M" ∨ fs = "C") = true then (if asString [r.sys] = "C" then 14 else 0) else 0 : Int)) : Rat))) ∧
+    postSem fs "gnss_week" = some (fun r => Cell.num (r.o5.c.val +
+      (((if decide (fs = "M" ∨ fs = "C") = true then (if asString [r.sys] = "C" then 1356 else 0) else 0 : Int)) : Rat))) := by
+  have hs := fun s => (offsets_only_beidou v3 (Or.inl rfl) s).1
+  have hw := fun s => (offsets_only_beidou v3 (Or.inl rfl) s).2
+  constructor
+  · show some _ = some _
+    congr 1
+    funext r
+    simp only [cellStr, hs]
+  · show some _ = some _
+    congr 1
+    funext r
+    simp only [cellStr, hw]
+
+/-- what became of the general columns: gone; the system-specific ones carry the record's value for the systems that
+use the name and `None` for the others (three of the eleven specific names, the others alike) -/
+theorem post_record_renamed (fs : String) :
+    postSem fs "gnss_tgd_bgd" = Option.none ∧
+    postSem fs "tgd_b1_b3" = some (fun r => if ["C"].contains (asString [r.sys]) then Cell.num r.o6.c.val else Cell.none) ∧
+    postSem fs "tgd" = some (fun r => if ["G", "J", "I"].contains (asString [r.sys]) then Cell.num r.o6.c.val else Cell.none) ∧
+    postSem fs "crs" = some (fun r => Cell.num r.o1.b.val) := by
+  refine ⟨rfl, rfl, rfl, rfl⟩
+
+example : supported demoNav.items ≠ [] ∧ ["C", "E", "G", "I", "J", "M"].contains (asString [demoNav.satSys]) = true := by
+  decide
+
+end Midgard.Props.C12
+
+/-! ## Text mode without side hypothesis: a rendered file contains no carriage return -/
+
+namespace Midgard.Props.C12
+open Midgard.RinexNav Midgard.Generated.RinexNav Midgard.FixedCol Midgard.Text Midgard.Decimal
+open Midgard.Spec.RinexNavFile
+
+/-- **parseNavText_render3**: `parseNav_render3` for the text-mode entry point (universal newlines, then
+`parseNav`) — no side hypothesis about carriage returns, `render3_noCR` discharges it. -/
+theorem parseNavText_render3 (f : NavFile) (hwf : f.wf = true) (k : Nat) (v : Str)
+    (hver : f.version = blanks k ++ v) (hv : Token v = true) (hlen : k + v.length < 20) (h3 : v.head? = some '3')
+    (ext2 ext212 : List (String × String)) (name : Str) :
+    parseNavText v3 v2 v212 ext2 ext212 name (render3 f) =
+      (postV3 v3 [f.satSys] (expectedState f.items)).map fun d => (NavParser.rinex3, d) := by
+  rw [parseNavText_eq _ _ _ _ _ _ _ (render3_noCR f hwf)]
+  exact parseNav_render3 f hwf k v hver hv hlen h3 ext2 ext212 name
+
+/-- **parseNavText_render2**: `parseNav_render2` for the text-mode entry point. -/
+theorem parseNavText_render2 (f : NavFile) (hwf : f.wf2 = true) (k : Nat) (v : Str)
+    (hver : f.version = blanks k ++ v) (hv : Token v = true) (hlen : k + v.length < 20) (h2 : v.head? = some '2')
+    (name : Str) (hn2 : systemOfName2 v2SysExt name = some "G") (hn212 : systemOfName212 v212SysExt name = some "G") :
+    parseNavText v3 v2 v212 v2SysExt v212SysExt name (render2 f) =
+      if v = "2.12".toList then (postV2 v212 "G" (expectedState f.items)).map fun d => (NavParser.rinex212, d)
+      else (postV2 v2 "G" (expectedState f.items)).map fun d => (NavParser.rinex2, d) := by
+  rw [parseNavText_eq _ _ _ _ _ _ _ (render2_noCR f hwf)]
+  exact parseNav_render2 f hwf k v hver hv hlen h2 name hn2 hn212
+
+/-- the hypotheses are satisfiable: the demo files of `Props/C12.lean` -/
+example : parseNavText v3 v2 v212 v2SysExt v212SysExt "x.rnx".toList (render3 demoNav) =
+    (postV3 v3 [demoNav.satSys] (expectedState demoNav.items)).map fun d => (NavParser.rinex3, d) :=
+  parseNavText_render3 demoNav (by decide +kernel) 5 "3.04".toList (by decide) (by decide) (by decide) (by decide) _ _ _
+
+example : parseNavText v3 v2 v212 v2SysExt v212SysExt "brdc1660.21n".toList (render2 demoNav2) =
+    (postV2 v2 "G" (expectedState demoNav2.items)).map fun d => (NavParser.rinex2, d) := by
+  have := parseNavText_render2 demoNav2 (by decide +kernel) 5 "2.11".toList (by decide) (by decide) (by decide)
+    (by decide) "brdc1660.21n".toList (by decide +kernel) (by decide +kernel)
+  rw [this, if_neg (by decide)]
+
+end Midgard.Props.C12
+
 #print axioms Midgard.Props.C12.layouts_sorted
 #print axioms Midgard.Props.C12.cols_cover_spec
 #print axioms Midgard.Props.C12.header_sat_sys
@@ -908,3 +1407,34 @@ end Midgard.Props.C12
 #print axioms Midgard.Props.C12.glonass_v2_refused
 #print axioms Midgard.Props.C12.parseNavText_eq
 #print axioms Midgard.Props.C12.offsets_only_beidou
+#print axioms Midgard.Props.C12.parseNavText_render3
+#print axioms Midgard.Props.C12.parseNavText_render2
+#print axioms Midgard.Props.C12.col_none_of_not_any
+#print axioms Midgard.Props.C12.col_map_set
+#print axioms Midgard.Props.C12.col_append_one
+#print axioms Midgard.Props.C12.col_setCol
+#print axioms Midgard.Props.C12.col_delCol
+#print axioms Midgard.Props.C12.rename3_cons
+#print axioms Midgard.Props.C12.rename3_nil
+#print axioms Midgard.Props.C12.mem_newNames
+#print axioms Midgard.Props.C12.col_foldl_setCol
+#print axioms Midgard.Props.C12.maskCol_map
+#print axioms Midgard.Props.C12.renStep_rows
+#print axioms Midgard.Props.C12.rename3_rows
+#print axioms Midgard.Props.C12.mapM_eq_some_map
+#print axioms Midgard.Props.C12.zip_rows
+#print axioms Midgard.Props.C12.timeCorrection_rows
+#print axioms Midgard.Props.C12.valOf_isSome
+#print axioms Midgard.Props.C12.valOf_none
+#print axioms Midgard.Props.C12.rows_expected
+#print axioms Midgard.Props.C12.lnavOk_rows
+#print axioms Midgard.Props.C12.okRen_v3
+#print axioms Midgard.Props.C12.sem_system
+#print axioms Midgard.Props.C12.sem_toe
+#print axioms Midgard.Props.C12.sem_ttx
+#print axioms Midgard.Props.C12.sem_week
+#print axioms Midgard.Props.C12.sem_iode
+#print axioms Midgard.Props.C12.sem_system_post
+#print axioms Midgard.Props.C12.post_record
+#print axioms Midgard.Props.C12.post_record_beidou
+#print axioms Midgard.Props.C12.post_record_renamed
